@@ -1959,6 +1959,10 @@ fn find_largest_partition(partitions: &[Option<BuildPartition>]) -> Option<usize
         .iter()
         .enumerate()
         .filter_map(|(idx, p)| p.as_ref().map(|part| (idx, part.memory_bytes)))
+        // An empty partition frees nothing and `write_batches_to_parquet`
+        // writes no file for it: marking it spilled made the later read of
+        // `build_<idx>.parquet` fail with "No such file or directory".
+        .filter(|(_, size)| *size > 0)
         .max_by_key(|(_, size)| *size)
         .map(|(idx, _)| idx)
 }
